@@ -27,6 +27,7 @@ var (
 	PartitionNotFoundErr     error = errors.New("Partition not found")
 	PartitionNotOnNodeErr    error = errors.New("Partition is not loaded on the node")
 	BatchRequestTooLargerErr error = errors.New("Batch request too large")
+	InvalidItemIdErr         error = errors.New("Item id must be a 16 byte UUID")
 )
 
 type partitionBatchResult map[uuid.UUID]error
@@ -236,9 +237,29 @@ func (this *Dataset) Remove(ctx context.Context, id uuid.UUID) error {
 	return this.getPartitionForId(id).remove(ctx, id)
 }
 
-func (this *Dataset) BatchInsert(ctx context.Context, items []*pb.BatchItem) (map[uuid.UUID]error, error) {
+// validateBatchItems rejects batches that must never reach the replicated log:
+// too many items, malformed ids and (optionally) wrong dimensions.
+func (this *Dataset) validateBatchItems(items []*pb.BatchItem, dimension bool) error {
 	if len(items) > maxBatchRequestSize {
-		return nil, BatchRequestTooLargerErr
+		return BatchRequestTooLargerErr
+	}
+	for _, item := range items {
+		if _, err := uuid.FromBytes(item.GetId()); err != nil {
+			return InvalidItemIdErr
+		}
+		if dimension {
+			value := math.Vector(item.GetValue())
+			if err := this.checkDimension(&value); err != nil {
+				return err
+			}
+		}
+	}
+	return nil
+}
+
+func (this *Dataset) BatchInsert(ctx context.Context, items []*pb.BatchItem) (map[uuid.UUID]error, error) {
+	if err := this.validateBatchItems(items, false); err != nil {
+		return nil, err
 	}
 
 	errors := make(map[uuid.UUID]error)
@@ -271,6 +292,9 @@ func (this *Dataset) BatchInsert(ctx context.Context, items []*pb.BatchItem) (ma
 }
 
 func (this *Dataset) PartitionBatchInsert(ctx context.Context, partitionId uuid.UUID, items []*pb.BatchItem) (map[uuid.UUID]error, error) {
+	if err := this.validateBatchItems(items, true); err != nil {
+		return nil, err
+	}
 	partition, err := this.getPartition(partitionId)
 	if err != nil {
 		return nil, err
@@ -280,8 +304,8 @@ func (this *Dataset) PartitionBatchInsert(ctx context.Context, partitionId uuid.
 }
 
 func (this *Dataset) BatchUpdate(ctx context.Context, items []*pb.BatchItem) (map[uuid.UUID]error, error) {
-	if len(items) > maxBatchRequestSize {
-		return nil, BatchRequestTooLargerErr
+	if err := this.validateBatchItems(items, false); err != nil {
+		return nil, err
 	}
 
 	errors := make(map[uuid.UUID]error)
@@ -314,6 +338,9 @@ func (this *Dataset) BatchUpdate(ctx context.Context, items []*pb.BatchItem) (ma
 }
 
 func (this *Dataset) PartitionBatchUpdate(ctx context.Context, partitionId uuid.UUID, items []*pb.BatchItem) (map[uuid.UUID]error, error) {
+	if err := this.validateBatchItems(items, true); err != nil {
+		return nil, err
+	}
 	partition, err := this.getPartition(partitionId)
 	if err != nil {
 		return nil, err
@@ -323,8 +350,8 @@ func (this *Dataset) PartitionBatchUpdate(ctx context.Context, partitionId uuid.
 }
 
 func (this *Dataset) BatchRemove(ctx context.Context, items []*pb.BatchItem) (map[uuid.UUID]error, error) {
-	if len(items) > maxBatchRequestSize {
-		return nil, BatchRequestTooLargerErr
+	if err := this.validateBatchItems(items, false); err != nil {
+		return nil, err
 	}
 
 	return this.partitionsBatchRequest(
@@ -339,6 +366,9 @@ func (this *Dataset) BatchRemove(ctx context.Context, items []*pb.BatchItem) (ma
 }
 
 func (this *Dataset) PartitionBatchRemove(ctx context.Context, partitionId uuid.UUID, items []*pb.BatchItem) (map[uuid.UUID]error, error) {
+	if err := this.validateBatchItems(items, false); err != nil {
+		return nil, err
+	}
 	partition, err := this.getPartition(partitionId)
 	if err != nil {
 		return nil, err
@@ -366,7 +396,7 @@ func (this *Dataset) Search(ctx context.Context, query math.Vector, k uint) (ind
 		go this.searchPartitionsOnNode(ctx, nodeId, partitionIds, query, k, wg, resultCh, errorCh)
 	}
 
-	result := make(index.SearchResult, 0, int(k)*len(nodePartitions))
+	result := make(index.SearchResult, 0)
 	for i := 0; i < len(nodePartitions); i++ {
 		select {
 		case items := <-resultCh:
@@ -383,6 +413,10 @@ func (this *Dataset) Search(ctx context.Context, query math.Vector, k uint) (ind
 }
 
 func (this *Dataset) SearchPartitions(ctx context.Context, partitionIds []uuid.UUID, query math.Vector, k uint) (index.SearchResult, error) {
+	if err := this.checkDimension(&query); err != nil {
+		return nil, err
+	}
+
 	var err error
 	partitions := make([]*partition, len(partitionIds))
 	for i, partitionId := range partitionIds {
@@ -404,7 +438,7 @@ func (this *Dataset) SearchPartitions(ctx context.Context, partitionIds []uuid.U
 		go this.searchPartition(ctx, partition, query, k, wg, resultCh, errorCh)
 	}
 
-	result := make(index.SearchResult, 0, int(k)*len(partitions))
+	result := make(index.SearchResult, 0)
 	for i := 0; i < len(partitions); i++ {
 		select {
 		case items := <-resultCh:
@@ -487,7 +521,7 @@ func (this *Dataset) searchPartitionsOnNode(ctx context.Context, nodeId uint64, 
 		return
 	}
 
-	result := make(index.SearchResult, 0, k)
+	result := make(index.SearchResult, 0)
 	for {
 		item, err := stream.Recv()
 		if err == io.EOF {
